@@ -15,7 +15,8 @@ from .interp import Interp, PathEnd, PyRaise, Env, Poison, _named, exc_matches, 
 from . import specs as S
 
 Z3_QUICK_MS = 400        # feasibility checks while exploring
-Z3_OBL_MS = 8000         # incremental check of an obligation
+Z3_OBL_MS = 5000         # incremental check of an obligation
+CVC5_MS = 15000          # cvc5 second opinion
 Z3_ONESHOT_MS = 20000    # fresh-solver retry
 
 
@@ -435,8 +436,11 @@ class Run:
         self.cur_args = None
         from .lib import FLOAT_AXIOMS
         from .sym import div_axioms, mul_axioms, ABSTRACT_NL
+        from .sym import ABSTRACT_REAL
         ABSTRACT_NL[0] = (not shape_mode) and getattr(C, "abstract_nl", True)
-        self.lib_axioms = list(FLOAT_AXIOMS) + (div_axioms() + mul_axioms() if ABSTRACT_NL[0] else [])
+        ABSTRACT_REAL[0] = (not shape_mode) and getattr(C, "abstract_real", False)
+        from .sym import comm_axioms
+        self.lib_axioms = list(FLOAT_AXIOMS) + (div_axioms() + mul_axioms() + comm_axioms(ABSTRACT_REAL[0]) if ABSTRACT_NL[0] else [])
 
     def obligation(self, kind, name, line):
         oid = "%s[%s]:%s.%s" % (self.C.short, self.case_label(), kind, name)
@@ -468,6 +472,12 @@ class Run:
                 self.on_refuted(ctx, s.model(), self.cur_args, ctx.cur_oid)
             s.pop()
             return "refuted", "z3-inc", None
+        # second opinion: cvc5 on the SMT-LIB text of the same query
+        t0 = time.time()
+        r3 = _cvc5_check(ctx.pc, t, CVC5_MS)
+        self.solver_s += time.time() - t0
+        if r3 == "unsat":
+            return "proved", "cvc5", None
         # retry in a fresh solver (different strategy selection)
         t0 = time.time()
         s2 = z3.Solver()
@@ -486,6 +496,35 @@ class Run:
 
     def class_attr(self, interp, ctx, cls, attr, node):
         return self.C.class_attr(interp, ctx, cls, attr, node)
+
+
+def _cvc5_check(pc, goal, ms):
+    """pc => goal ?  via cvc5 (python API) on the SMT-LIB 2 dump of the query; 'unsat' | 'sat' | 'unknown' | 'error'"""
+    try:
+        import cvc5
+        s = z3.Solver()
+        for p in pc:
+            s.add(p)
+        s.add(z3.Not(goal))
+        text = "(set-logic ALL)\n" + s.to_smt2()
+        if "(lambda" in text:
+            return "error"
+        slv = cvc5.Solver()
+        slv.setOption("tlimit", str(ms))
+        parser = cvc5.InputParser(slv)
+        parser.setStringInput(cvc5.InputLanguage.SMT_LIB_2_6, text, "vc")
+        sm = parser.getSymbolManager()
+        out = "unknown"
+        while True:
+            cmd = parser.nextCommand()
+            if cmd.isNull():
+                break
+            res = str(cmd.invoke(slv, sm)).strip()
+            if res in ("unsat", "sat", "unknown"):
+                out = res
+        return out
+    except Exception:
+        return "error"
 
 
 def _has_quantifier(ts):
